@@ -147,6 +147,18 @@ def check_C01(tier, seed, replay=None):
     for d in d_o:
         run.violation(run_o.replay_path(d), "-optimize-grammar: df=%s gi=%d ii=%d" % (d["df"], d["gi"], d["ii"]))
     tot = dict(n=tot["n"] + tot_o["n"], states=tot["states"] + tot_o["states"], transitions=tot["transitions"] + tot_o["transitions"])
+    # "classes honour the i and ^ flags": the character-class family (every single member / range over the case-boundary
+    # alphabet, every Unicode class name, random mixes; all 128 Basic Latin runes, non-ASCII runes, ill-formed bytes) against
+    # the meaning of a class in PegRef, with the case forms and class members taken from Go's unicode package
+    run_c = Run("C01", tier, seed)
+    cl = class_runs(run_c, tier, seed, [[], ["-optimize-parser"]], nrand=200 if tier == "quick" else 1500)
+    d_c, tot_c = class_meaning(run_c, tier, seed, *cl, which=range(len(cl[4])))
+    for d in d_c:
+        g_ = cl[1][d["gi"] - 1]
+        run.violation(run_c.replay_path(d), "class %s input %s: the parser does not decide like the meaning of the class (%s)" % (
+            bytes(g_.N(g_.rules[0])["want"]).decode(), cl[2][d["ii"] - 1], d["df"]))
+    run.cov["character_classes"] = dict(classes=len(cl[0]), decisions_validated=tot_c["n"], unicode_classes=len(cl[5]))
+    tot = dict(n=tot["n"] + tot_c["n"], states=tot["states"] + tot_c["states"], transitions=tot["transitions"] + tot_c["transitions"])
     return std_finish(run, div, tot, "E(d) exhaustive single-rule grammars + random multi-rule grammars x all inputs up to the bound x flag sets; a group is distinct by construction (enumeration) and non-trivial when it has at least one operator")
 
 
@@ -1070,13 +1082,12 @@ def c15_text(chars, rngs, ucl, inv, ic):
     return s + "]" + ("i" if ic else "")
 
 
-def check_C15(tier, seed, replay=None):
-    """-optimize-basic-latin is a pure optimisation of character classes (real vs real, all 128 runes)"""
+def class_runs(run, tier, seed, flagsets, nrand=None):
+    """the character-class family of C15 (also the class part of C01): builds the classes, generates one parser per
+    pack and flag set, runs every class on every input; returns (classes, groups, inputs, options, variants, ucl_names)"""
     from peg import Gram
-    from rt import pairwise
-    run = Run("C15", tier, seed)
     rng = random.Random(seed)
-    n = 400 if tier == "quick" else 3000
+    n = nrand if nrand is not None else (400 if tier == "quick" else 3000)
     classes = []
     # exhaustive part: every single member / single range over the boundary alphabet, all four flag combinations
     small = [0x40, 0x41, 0x5A, 0x5B, 0x60, 0x61, 0x7A, 0x7B, 0x212A, 0x17F, 0x130]
@@ -1094,13 +1105,19 @@ def check_C15(tier, seed, replay=None):
     # the witnesses of the repaired defect F15
     classes += [([], [0x5A, 0x61], [], False, True), ([], [0x40, 0x5A], [], False, True), ([0x212A], [], [], False, True),
                 ([0x130], [], [], False, True), ([], [], ["Lu"], False, True)]
-    while len(classes) < n + 600:
+    for _ in range(n):
         classes.append(c15_class(rng))
     groups = []
+    ucl_names = []
+
+    def ucl_ix(u):
+        if u not in ucl_names:
+            ucl_names.append(u)
+        return ucl_names.index(u) + 1
     for i, (chars, rngs, ucl, inv, ic) in enumerate(classes):
         g = Gram(i + 1)
         txt = c15_text(chars, rngs, ucl, inv, ic)
-        g.rules = [g.mk(k="cls", s=list(chars), rng=list(rngs), inv=inv, ic=ic, want=list(txt.encode()))]
+        g.rules = [g.mk(k="cls", s=list(chars), rng=list(rngs), inv=inv, ic=ic, want=list(txt.encode()), ucl=[ucl_ix(u) for u in ucl])]
         g.disp = [""]
         g.compute_args()
         g.maydiverge = False
@@ -1115,18 +1132,48 @@ def check_C15(tier, seed, replay=None):
     packs = [groups[i:i + 400] for i in range(0, len(groups), 400)]
     variants = []
     for pi, pk in enumerate(packs):
-        for fl in ([], ["-optimize-basic-latin"], ["-optimize-parser"], ["-optimize-parser", "-optimize-basic-latin"]):
+        for fl in flagsets:
             variants.append(P.Variant(len(variants) + 1, "p%d" % pi, pk, fl))
 
     def prep(v):
         if not v.generate(pigeon):
-            raise P.Inconclusive("pigeon rejected a C15 pack: " + v.gen_err)
+            raise P.Inconclusive("pigeon rejected a pack of character classes: " + v.gen_err)
         if not v.build():
             raise P.Inconclusive("build failed: " + v.build_err)
         plan = [[gx, ii, oi] for gx in range(len(v.groups)) for ii in range(nin) for oi in (0, 1)]
         return v.run(inputs, options, plan)
     run.obs = P.parallel(prep, variants)
     run.variants, run.groups, run.inputs, run.options = variants, groups, inputs, options
+    return classes, groups, inputs, options, variants, ucl_names
+
+
+def class_meaning(run, tier, seed, classes, groups, inputs, options, variants, ucl_names, which):
+    """the observations of the variants `which` against the MEANING of the class (PegRef.InClass): membership, ^, and i,
+    where the case forms of the runes and the members of the Unicode classes are exported from Go's unicode package for
+    exactly the runes in play.  returns (divergences, totals)"""
+    from peg import dump_groups
+    runes = set()
+    for inp in inputs:
+        try:
+            runes |= {ord(ch) for ch in bytes(inp).decode("utf-8")}
+        except UnicodeDecodeError:
+            pass
+    for (chars, rngs, ucl, inv, ic) in classes:
+        runes |= set(chars) | set(rngs)
+    runes.add(0xFFFD)
+    ut = unitab(sorted(runes), ucl_names)
+    gp = os.path.join(P.workdir(), "classgroups.ndjson")
+    dump_groups(groups, gp)
+    tcase = dict(inputs=inputs, options=options, lower=ut["rows"], uclass=ut["members"] or [[0]], cmp=dict(store=True, errs=True, ctx=False, norm=False), kf=["-"], strict=[0])
+    run.tcase = tcase
+    return P.validate_t1(gp, tcase, [run.obs[ix] for ix in which], shards=12)
+
+
+def check_C15(tier, seed, replay=None):
+    """-optimize-basic-latin is a pure optimisation of character classes (real vs real, all 128 runes)"""
+    from rt import pairwise
+    run = Run("C15", tier, seed)
+    classes, groups, inputs, options, variants, ucl_names = class_runs(run, tier, seed, [[], ["-optimize-basic-latin"], ["-optimize-parser"], ["-optimize-parser", "-optimize-basic-latin"]])
     pairs = [(i, i + 1) for i in range(0, len(variants), 2)]
     div, npairs = pairwise(run, pairs, fields=("status", "ok", "end", "val", "errs"))
     nviol = 0
@@ -1139,10 +1186,22 @@ def check_C15(tier, seed, replay=None):
                rule="character classes: every single member and every single range over the case-boundary alphabet {@ A Z [ ` a z { KELVIN LONG-S DOTTED-I} and every Unicode class of a list, in all four ^/i combinations (exhaustive), the witnesses of the repaired defect F15, and random classes with up to 3 members, 2 ranges, 2 Unicode classes; inputs: ALL 128 Basic Latin runes, 13 non-ASCII runes, 5 ill-formed byte strings, the empty input, with AllowInvalidUTF8 on/off; the parser generated with the flag must decide exactly like the one generated without it (also under -optimize-parser)",
                samples=[dict(cls=bytes(g.N(g.rules[0])["want"]).decode()) for g in groups[:: max(1, len(groups) // 8)][:8]],
                classes=len(classes), decisions_compared=npairs, violating=nviol, exhaustive=False)
-    return run.finish("translation_validation", cov, ["real-vs-real as the statement says; the verdict does not depend on any model of case folding"])
+    return run.finish("translation_validation", cov, ["real-vs-real as the statement says; the verdict does not depend on any model of case folding (the MEANING of the same classes is judged by C01)"])
 
 
 # ------------------------------------------------------------------------------------------
+def unitab(runes, classes):
+    """case forms of the runes and members of the Unicode classes, from Go's unicode package (runner/unitab.go.txt)"""
+    import subprocess, tempfile
+    d = tempfile.mkdtemp(prefix="unitab-", dir=P.workdir())
+    shutil.copy(os.path.join(P.VERIF, "runner", "unitab.go.txt"), os.path.join(d, "unitab.go"))
+    p = subprocess.run(["go", "run", "unitab.go"], cwd=d, input=json.dumps(dict(runes=runes, classes=classes)).encode(),
+                       stdout=subprocess.PIPE, stderr=subprocess.PIPE, env=P.ENV, timeout=300)
+    if p.returncode != 0:
+        raise P.Inconclusive("unitab failed: " + p.stderr.decode(errors="replace")[-500:])
+    return json.loads(p.stdout)
+
+
 def unicode_class_names():
     import re
     src = open(os.path.join(P.REPO, "unicode_classes.go")).read()
